@@ -239,6 +239,11 @@ func engineGoroutines() (int, string) {
 var leakedBaseline atomic.Int64
 
 func quiesce(budget time.Duration) bool {
+	if leakedBaseline.Load() > 0 && budget > 300*time.Millisecond {
+		// goroutines already leaked in this process: an environment that does not
+		// quiesce is simply never closed (dirty), so do not pay the full budget per case
+		budget = 300 * time.Millisecond
+	}
 	deadline := time.Now().Add(budget)
 	for i := 0; ; i++ {
 		n, _ := engineGoroutines()
@@ -692,3 +697,43 @@ func (netContextualizer) Network(ctx context.Context, def uuid.UUID) uuid.UUID {
 	return def
 }
 func (netContextualizer) Config(_ context.Context, c *configx.Provider) *configx.Provider { return c }
+
+// injectStatementFault makes INSERT and/or DELETE statements on the relationship
+// table fail below keto (SQLite BEFORE-row triggers with RAISE(ABORT)); undo
+// removes the triggers. kind: insert | delete | both.
+func (e *Env) injectStatementFault(kind string) (undo func() error, err error) {
+	conn, err := e.Reg.PopConnection(e.Ctx)
+	if err != nil {
+		return nil, err
+	}
+	var names []string
+	mk := func(name, ev string) error {
+		if err := conn.RawQuery("CREATE TRIGGER " + name + " BEFORE " + ev + " ON keto_relation_tuples BEGIN SELECT RAISE(ABORT, 'verif: injected statement failure'); END").Exec(); err != nil {
+			return err
+		}
+		names = append(names, name)
+		return nil
+	}
+	undo = func() error {
+		var first error
+		for _, n := range names {
+			if err := conn.RawQuery("DROP TRIGGER IF EXISTS " + n).Exec(); err != nil && first == nil {
+				first = err
+			}
+		}
+		return first
+	}
+	if kind == "insert" || kind == "both" {
+		if err := mk("verif_fault_ins", "INSERT"); err != nil {
+			_ = undo()
+			return nil, err
+		}
+	}
+	if kind == "delete" || kind == "both" {
+		if err := mk("verif_fault_del", "DELETE"); err != nil {
+			_ = undo()
+			return nil, err
+		}
+	}
+	return undo, nil
+}
